@@ -8,7 +8,9 @@
 extern "C" {
 void vp_sym_string(QString *out, int maxlen);          // fresh symbolic QString, 0..maxlen arbitrary UTF-16 code units
 void vp_sym_string_nonempty(QString *out, int maxlen); // 1..maxlen units
-void vp_sym_bytes(QByteArray *out, int maxlen);        // fresh symbolic QByteArray, 0..maxlen arbitrary bytes
+void vp_sym_bytes(QByteArray *out, int maxlen);
+void vp_sym_string_exact(QString *out, int len);      // exactly len arbitrary units; the length is a constant for symex
+void vp_sym_bytes_exact(QByteArray *out, int len);        // fresh symbolic QByteArray, 0..maxlen arbitrary bytes
 void vp_writer_init(void *w);                          // model QXmlStreamWriter (no device)
 void vp_writer_root(void *w, QDomElement *out);        // the document element written so far (must be complete)
 bool vp_dom_equal(const QDomElement *a, const QDomElement *b);   // same tree up to attribute order (sibling order significant)
@@ -29,5 +31,8 @@ struct VpWriter {
 static inline QString vpSymString(int maxlen) { QString s; vp_sym_string(&s, maxlen); return s; }
 static inline QString vpSymStringNonEmpty(int maxlen) { QString s; vp_sym_string_nonempty(&s, maxlen); return s; }
 // string whose emptiness is the i-th structural choice (empty strings usually suppress an element/attribute)
-static inline QString vpSymStringCase(unsigned i, int maxlen) { return vp_case_bool(i) ? vpSymStringNonEmpty(maxlen) : QString(); }
+static inline QString vpSymStringExact(int len) { QString s; vp_sym_string_exact(&s, len); return s; }
+// emptiness is the i-th structural choice; a non-empty one has exactly `len` units so that isEmpty() folds
+static inline QString vpSymStringCase(unsigned i, int len) { return vp_case_bool(i) ? vpSymStringExact(len) : QString(); }
+static inline QByteArray vpSymBytesExact(int len) { QByteArray s; vp_sym_bytes_exact(&s, len); return s; }
 static inline QByteArray vpSymBytes(int maxlen) { QByteArray s; vp_sym_bytes(&s, maxlen); return s; }
